@@ -134,3 +134,6 @@ package xpush
 //@   before call:SetPrivate#1 assert p.p == pp && p.s == s
 //@
 // ---- end generated AddPipe contracts ----
+//@
+//@ func (*socket).RemovePipe
+//@   before call:Unlock#1 assert p.closed
